@@ -25,6 +25,7 @@ func checkC14(c *Ctx) {
 	c.Rule("C14/R7", "unit metadata survives from file to file: Files never replaces its reader wholesale and the reader creates its unit table only when it has none")
 
 	c.Rule("C14/R8", "-filter stays in force when -table/-row/-col carry a fixed value list: the projection parser ANDs the list's membership tests with the caller's filter, keeping that filter among the operands (same rule as C06/R6), so a measurement the filter rejects cannot reach a cell")
+	c.Rule("C14/R10", "table keys are announced incrementally and completely: before each table a key line is printed for exactly the fields other than .unit whose value differs from the previous table's (or all of them for the first table); nothing else — such as the new value being empty — decides")
 	c.Rule("C14/R9", "the residue warning sees fields discovered late: flattened-field cache invariant (same rule as C09/R10)")
 	p := mustLoad(c, loadOpts{}, "./cmd/benchstat", "./"+btabRel, "./benchproc", "./benchfmt", "./benchmath", "./benchproc/internal/parse")
 	c14Wiring(c, p)
@@ -36,6 +37,95 @@ func checkC14(c *Ctx) {
 	c14Units(c, p, "C14/R7")
 	c06Conjoin(c, p, "C14/R8")
 	c09FlatInvariant(c, p, "C14/R9")
+	c14TableKeys(c, p)
+}
+
+// c14TableKeys (C14/R10): which table a block of rows belongs to is told incrementally: before each table a "key: value"
+// line is printed for exactly the table-key fields (other than .unit) whose value differs from the previous table's — also
+// when the new value is empty, which is how a reader learns that the key no longer applies.
+func c14TableKeys(c *Ctx, p *Prog) {
+	const R = "C14/R10"
+	fn := p.Method(btabRel, "Tables", "printTables")
+	if fn == nil || len(fn.Params) < 2 {
+		c.Undecided(R, "anchor:Tables.printTables", "", "not found")
+		return
+	}
+	site := p.pos(fn.Pos())
+	hdr := fn.Params[1]
+	// the loop over the key fields: the innermost loop that calls Key.Get
+	var lp *loopInfo
+	for _, l := range naturalLoops(fn) {
+		has := false
+		for b := range l.Blocks {
+			for _, in := range b.Instrs {
+				if call, ok := in.(*ssa.Call); ok && objIs(calleeObj(&call.Call), bprocPkg, "Key", "Get") {
+					has = true
+				}
+			}
+		}
+		if has && (lp == nil || len(l.Blocks) < len(lp.Blocks)) {
+			lp = l
+		}
+	}
+	if lp == nil {
+		c.Undecided(R, "printTables:field-loop", site, "no loop over the table key's fields")
+		return
+	}
+	start := loopBodyStart(lp)
+	outs, why := e6Enumerate(func() *e6Interp {
+		return &e6Interp{PureCall: func(f *types.Func) bool { return f.Name() == "Get" || f.Name() == "IsZero" }}
+	}, start, lp.Header, iterStop(lp, start), 256)
+	if why != "" {
+		c.Undecided(R, "printTables:table", site, why)
+		return
+	}
+	n := 0
+	for _, o := range outs {
+		var unit, zero, differs *bool
+		var extra []string
+		for _, k := range o.AtomKeys() {
+			v := o.Assign[k]
+			s := o.AtomSyms[k]
+			vv := v
+			str := s.String()
+			switch {
+			case s.Op == "binop" && (s.Tok == token.EQL || s.Tok == token.NEQ) && strings.Contains(str, ".Name") && s.Args[1].isConst():
+				if cs, ok := constString2(s.Args[1]); ok && cs == ".unit" {
+					t := (s.Tok == token.EQL) == v
+					unit = &t
+				} else {
+					extra = append(extra, k)
+				}
+			case s.Op == "call" && strings.HasSuffix(strings.Split(s.Name, "@")[0], "IsZero"):
+				zero = &vv
+			case s.Op == "binop" && (s.Tok == token.EQL || s.Tok == token.NEQ) && s.Args[0].Op == "call" && s.Args[1].Op == "call" && strings.Contains(s.Args[0].Name, ".Get") && strings.Contains(s.Args[1].Name, ".Get"):
+				t := (s.Tok == token.NEQ) == v
+				differs = &t
+			case s.Op == "binop" && s.Args[1].isConst() && s.Args[1].IsNil:
+				// err != nil after the header callback
+			default:
+				extra = append(extra, k)
+			}
+		}
+		calls := false
+		for _, a := range o.Actions {
+			if a.Kind == "call" && a.Fn != nil && a.Fn.String() == "param:"+hdr.Name() {
+				calls = true
+			}
+		}
+		n++
+		key := fmt.Sprintf("printTables[unit=%s first=%s differs=%s]#%d", boolPtrStr(unit), boolPtrStr(zero), boolPtrStr(differs), n)
+		if len(extra) > 0 {
+			c.Bad(R, key, site, "whether a table-key line is printed also depends on "+truncate(strings.Join(extra, "; "), 160)+": a key whose value becomes empty in a later table is then not announced, and that table reads as if it still had the previous table's value")
+			continue
+		}
+		want := unit != nil && !*unit && ((zero != nil && *zero) || (differs != nil && *differs))
+		if unit != nil && *unit {
+			want = false
+		}
+		c.Check(calls == want, R, key, site, fmt.Sprintf("header line printed=%v", calls), fmt.Sprintf("a table-key line is printed=%v where the rule (not .unit, and first table or value changed) says %v", calls, want))
+	}
+	c.Floor(R, "cases of the table-key announcement", n, 3)
 }
 
 func c14Wiring(c *Ctx, p *Prog) {
